@@ -21,8 +21,8 @@ for ONE module of the program.  Kinds:
 Sites that are not applicable are skipped and counted in `skips` (a dict passed by the caller): text of the
 expression not bracket-balanced (the location of `(a + b) * c` starts inside the parenthesis), inferred type
 not expressible in the module (contains `any`, a class-statics type, a class that is not imported), callee
-of a member call for `block` (a call `C.f(x)` is one syntactic form: the member reference alone has no
-arguments to infer its type arguments from), binders of patterns with an or-pattern nested in a later
+of a GENERIC member call for `block` (by design of the language: a call `C.f(x)` is one syntactic form, the member
+reference alone has no arguments to infer its type arguments from), binders of patterns with an or-pattern nested in a later
 alternative (open finding of C15), private classes for `split`.
 """
 import re
@@ -285,8 +285,12 @@ def reorder_variants(prog, module, sites, rng, cap, skips=None):
         if sg is None:
             _skip(skips, 'reorder-top:overlapping-locations')
         else:
+            names = [t['name'] for t in tops]
+            dup = len(set(names)) != len(names)
             for p in _perms(len(tops), rng, max(1, cap // 2)):
-                out.append(_mk(prog, module, 'reorder-top', {'order': [tops[i]['name'] for i in p]}, _join(sg[0], sg[1], p, sg[2])))
+                v = _mk(prog, module, 'reorder-top', {'order': [tops[i]['name'] for i in p]}, _join(sg[0], sg[1], p, sg[2]))
+                v['dup_names'] = dup
+                out.append(v)
     cands = [t for t in tops if len(t['members']) >= 2]
     per = max(1, (cap - len(out)) // max(1, len(cands)))
     for t in cands:
@@ -294,9 +298,15 @@ def reorder_variants(prog, module, sites, rng, cap, skips=None):
         if sg is None:
             _skip(skips, 'reorder-mem:overlapping-locations')
             continue
+        names = [m['name'] for m in t['members']]
+        dup = len(set(names)) != len(names)
         for p in _perms(len(t['members']), rng, per):
-            out.append(_mk(prog, module, 'reorder-mem', {'class': t['name'], 'order': [t['members'][i]['name'] for i in p]},
-                           _join(sg[0], sg[1], p, sg[2])))
+            v = _mk(prog, module, 'reorder-mem', {'class': t['name'], 'order': [t['members'][i]['name'] for i in p]},
+                    _join(sg[0], sg[1], p, sg[2]))
+            # duplicate names: the excluded case of C13_perm_invariant (the last declaration wins); the checker reports
+            # NameAlreadyBound in every order, which is all the monitor then compares
+            v['dup_names'] = dup
+            out.append(v)
     return out
 
 
@@ -324,12 +334,12 @@ EXCLUDED_BLOCK_CLASSES = {'generic-member-callee', 'method-callee-on-generic-rec
 
 
 def block_excluded(e, generic_member, receiver):
-    """Classes of sites where `{ e }` is known not to be accepted / compiled like `e` (reported findings; the
-    dedicated witnesses of checks/c13.py replay them):
-    * C13-block-generic-callee: `{ C.f }(x)` for a member with type parameters: once the member reference is
-      not the direct callee its type arguments are inferred without the arguments (Underconstrained);
-    * C13-method-value-generic-receiver: `{ o.m }(x)` where o has a generic class type: a method used as a value
-      (not called directly) makes the compiler panic in generics specialization."""
+    """Classes of `block` sites that are not rewritten (checks/c13.py replays one fixed witness per class):
+    * generic-member-callee — BY DESIGN of the language, always excluded, not a finding: `{ C.f }(x)` for a member
+      with type parameters.  `C.f(args)` / `e.m(args)` are call forms (spec 6.7.1 / 6.7.2); once the member
+      reference is a value of its own its type arguments have no context (spec 5.7) -> Underconstrained;
+    * method-callee-on-generic-receiver — only while the witness of the finding C03-method-value-generic-receiver
+      (fixed by d1b42a2) fails again: `{ o.m }(x)` where o has a generic class type made the compiler panic."""
     if e['role'] == 'callee' and e['k'] in ('method', 'field'):
         if e['i'] in generic_member:
             return 'generic-member-callee' if 'generic-member-callee' in EXCLUDED_BLOCK_CLASSES else None
